@@ -171,6 +171,8 @@ def gen_contact_scene(rng, nspheres=None, free_flight=False, allow_s2s=True, fri
     """Spheres (rigid bodies with spherical inertia, or point masses) over
     fixed planes, optional sphere-sphere pairs.  ``free_flight``: no applied
     forces, mu = 0 (energy monitor applies)."""
+    if free_flight and nspheres is None and rng.random() < 0.3:
+        return gen_cradle_scene(rng, common_eN)
     ns = nspheres or int(rng.integers(1, 5))
     scene = {"t0": 0.0, "bodies": [], "frames": [], "joints": [], "tpis": [], "laws": [], "actuators": [], "forces": [], "contacts": []}
     radii = []
@@ -251,4 +253,33 @@ def gen_contact_scene(rng, nspheres=None, free_flight=False, allow_s2s=True, fri
     else:
         scene["gravity"] = (-9.81 * np.array([0, 0, 1.0])).tolist()
     scene["common_eN"] = eN_common if all(c["eN"] == eN_common for c in scene["contacts"]) else None
+    return scene
+
+
+def gen_cradle_scene(rng, common_eN=None):
+    """A row of touching, unloaded spheres hit by another one (force-free): the impact travels through contacts
+    that are closed but carried no percussion in the previous step and are loaded only through their neighbours."""
+    n = int(rng.integers(3, 6))
+    eN = float(rng.choice([0.0, 0.5, 1.0, rng.uniform(0, 1)])) if common_eN is None else common_eN
+    scene = {"t0": 0.0, "bodies": [], "frames": [], "joints": [], "tpis": [], "laws": [], "actuators": [], "forces": [], "contacts": []}
+    d = rng.normal(size=3)
+    d /= np.linalg.norm(d)
+    x = 0.0
+    radii = []
+    start = rng.uniform(-0.5, 0.5, 3) + np.array([0, 0, 3.0])
+    for i in range(n):
+        rad = float(rng.uniform(0.1, 0.25))
+        if i > 0:
+            x += radii[-1] + rad + (float(rng.uniform(0.05, 0.3)) if i == 1 else 0.0)  # striker separated, the rest touching
+        radii.append(rad)
+        kind = "rigid" if rng.random() < 0.5 else "point"
+        b = {"kind": kind, "m": float(rng.uniform(0.5, 2.0)), "r": (start + x * d).tolist(), "v": ((float(rng.uniform(1.0, 3.0)) * d) if i == 0 else np.zeros(3)).tolist()}
+        if kind == "rigid":
+            th = 0.4 * b["m"] * rad**2
+            b.update(theta=[th, th, th], p=rot.rand_quat(rng).tolist(), w=[0.0, 0.0, 0.0])
+        scene["bodies"].append(b)
+    for i in range(n - 1):
+        scene["contacts"].append({"type": "s2s", "a": i, "b": i + 1, "ra": radii[i], "rb": radii[i + 1], "mu": 0.0, "eN": eN, "eF": 0.0})
+    scene["common_eN"] = eN
+    scene["cradle"] = True
     return scene
